@@ -111,8 +111,17 @@ def gen_spec(rng):
             elif r < 0.32:
                 proofs.append(rng.choice(['p1', 'p2', 'p3']))     # FEWER claims than proofs
                 info['fewer_claims'] = True
+        # a library that is extended, or imports another module, AFTER it has been imported by the others
+        late_ax, late_subs = [], []
+        if not root and rng.random() < 0.3:
+            late_ax = [G.maybe_notate(rng, G.gen_pat(rng, rng.choice([0, 1, 2]), cfg), notation) for _ in range(rng.choice([1, 1, 2]))]
+            info['late_axiom'] = True
+        if not root and i > 0 and rng.random() < 0.25:
+            late_subs = [rng.randrange(i) for _ in range(rng.choice([1, 1, 2]))]
+            info['late_import'] = True
         specs.append('|'.join([pats_txt(ctor), pats_txt(added), pats_txt(claims),
-                               ','.join(str(s) for s in subs) or '-', ';'.join(proofs) or '-']))
+                               ','.join(str(s) for s in subs) or '-', ';'.join(proofs) or '-',
+                               pats_txt(late_ax), ','.join(str(s) for s in late_subs) or '-']))
         mods_axioms.append(subs)
     # a diamond: some module reachable along two import paths
     def reach(i, acc):
@@ -181,13 +190,14 @@ def run(tier, seed):
     redo = []
     for ci, (ans, (specs, info)) in enumerate(zip(impl, cases)):
         m = RES.match(ans)
-        if m and 'REFUSED ValueError' in (m.group(2) + m.group(3)) and not specs[-1].endswith('|-'):
+        if m and 'REFUSED ValueError' in (m.group(2) + m.group(3)) and specs[-1].split('|')[4] != '-':
             redo.append(ci)
     if redo:
         stripped = []
         for ci in redo:
             specs = list(cases[ci][0])
-            specs[-1] = '|'.join(specs[-1].split('|')[:4] + ['-'])
+            f_ = specs[-1].split('|')
+            specs[-1] = '|'.join(f_[:4] + ['-'] + f_[5:])
             stripped.append(specs)
         again = IC.run_impl(['MOD ' + ' '.join(s) for s in stripped])
         for ci, specs, ans in zip(redo, stripped, again):
@@ -250,6 +260,11 @@ def run(tier, seed):
                 mismatches.append((f'accept-{tag}', line[:400], f'impl={o[:200]} model={ma[:200]}'))
                 kinds.append('MISMATCH')
                 tie_ok = False
+            if o.startswith('BROKEN-TABLE'):
+                oracle_fail.append(('symbol-table-not-injective', 'a symbol was written with two numbers, or the numbers are not 0..n-1',
+                                    dict(request=line, answer=o[:300])))
+                kinds.append('broken-table')
+                continue
             if not f:
                 kinds.append('refused:' + o.split()[-1])
                 # refusal is only legitimate for ids above 255
@@ -282,7 +297,7 @@ def run(tier, seed):
             rg, rc, rv = rust.get((ci, opt, 'G'), '<norust>'), rust.get((ci, opt, 'C'), '<norust>'), rust.get((ci, opt, 'V'), '<norust>')
             if rg == 'REJECT' or rc == 'REJECT':
                 kinds.append(f'checker-rejects-w{w}')
-                if w == 0 or (w is None and not mm):
+                if w == 0 or w is None:
                     oracle_fail.append((f'checker-rejects-public-files:{tag}', 'the checker rejects the gamma/claim file of a module inside the boundary',
                                         dict(request=line, answer=o[:300])))
                 continue
@@ -315,7 +330,7 @@ def run(tier, seed):
                                 dict(request=line, off=decoded[0], on=decoded[1])))
         nontrivial = bool(decl_ax or decl_cl) and any(k.startswith(('published', 'refused:ValueError')) for k in kinds)
         R.case(line, nontrivial, '/'.join(kinds) or 'none')
-        for key in ('big', 'diamond', 'dup', 'notdup', 'added_dup', 'proofs_stripped', 'more_claims', 'fewer_claims', 'big_id'):
+        for key in ('big', 'diamond', 'dup', 'notdup', 'added_dup', 'proofs_stripped', 'more_claims', 'fewer_claims', 'big_id', 'late_axiom', 'late_import'):
             if info.get(key):
                 R.hist['feature:' + key] = R.hist.get('feature:' + key, 0) + 1
         R.hist[f'mods-{len(mods)}'] = R.hist.get(f'mods-{len(mods)}', 0) + 1
